@@ -34,6 +34,7 @@ INFO = {
         'send-after-closed clause only; the registry clauses compare public hostname/port with socket peer names',
     ],
 }
+INFO['rule'] += ' Later additions: a local disconnect while the TCP connect is still in progress; an address with a port no socket accepts (OverflowError instead of OSError); an application listener that is slow inside a message delivery.'
 
 ORDER = {ConnectionState.UNINITIALIZED: 0, ConnectionState.CONNECTING: 1, ConnectionState.CONNECTED: 2,
          ConnectionState.CLOSING: 3, ConnectionState.CLOSED: 4}
